@@ -99,12 +99,44 @@ pub fn leaf_alphabet() -> Vec<V> {
     l.push(V::Tag(u64::MAX, Box::new(V::Null)));
     l
 }
-/// n-th permutation of 0..n (factorial number system)
+/// n-th permutation of 0..n (factorial number system for n <= 12; for longer lists a family of rotations / reversals / strides)
 pub fn nth_perm(n: usize, mut idx: usize) -> Vec<usize> {
+    if n > 12 {
+        let mut v: Vec<usize> = (0..n).collect();
+        match idx % 4 { 0 => {} 1 => v.reverse(), 2 => v.rotate_left(n / 3), _ => { let stride = if n % 7 == 0 { 5 } else { 7 }; v = (0..n).map(|i| (i * stride) % n).collect(); let mut seen = vec![false; n]; let mut ok = true; for x in &v { if seen[*x] { ok = false } seen[*x] = true } if !ok { v = (0..n).rev().collect(); v.rotate_left(1) } } }
+        return v;
+    }
     let mut items: Vec<usize> = (0..n).collect(); let mut out = vec![];
     let mut f: Vec<usize> = vec![1; n + 1]; for i in 1..=n { f[i] = f[i - 1] * i }
     idx %= f[n];
     for i in (1..=n).rev() { let k = idx / f[i - 1]; idx %= f[i - 1]; out.push(items.remove(k)); }
     out
 }
-pub fn factorial(n: usize) -> usize { (1..=n).product::<usize>().max(1) }
+pub fn factorial(n: usize) -> usize { (1..=n.min(12)).product::<usize>().max(1) }
+
+/// shapes at CBOR head-width boundaries and beyond the small-scope families: wide nodes (array length 23/24/25, 255/256/257),
+/// deep wrapping, a wide node inside an assertion object, long text / byte-string leaves
+pub fn wide_tier(thorough: bool) -> Vec<(String, M)> { wide().into_iter().filter(|(n, _)| thorough || !(n.contains("6553") || n == "node-254-assertions" || n == "node-255-assertions")).collect() }
+pub fn wide() -> Vec<(String, M)> {
+    let t = |s: String| M::Leaf(V::Text(s));
+    let a = |i: usize| M::Assertion(Box::new(t(format!("p{i:03}"))), Box::new(M::Leaf(V::U(i as u64))));
+    let mut out = vec![];
+    for n in [22usize, 23, 24, 25, 40, 254, 255, 256] { out.push((format!("node-{n}-assertions"), M::Node(Box::new(t("wide".into())), (0..n).map(a).collect()))) }
+    let mut w = t("deep".into()); for _ in 0..24 { w = M::Wrapped(Box::new(w)) } out.push(("wrapped-x24".into(), w));
+    let mut nest = M::Node(Box::new(t("n0".into())), vec![a(0)]); for i in 1..12 { nest = M::Node(Box::new(t(format!("n{i}"))), vec![M::Assertion(Box::new(t(format!("child{i}"))), Box::new(nest))]) } out.push(("nested-nodes-x12".into(), nest));
+    out.push(("wide-node-as-object".into(), M::Node(Box::new(t("outer".into())), vec![M::Assertion(Box::new(t("inner".into())), Box::new(M::Node(Box::new(t("w".into())), (0..24).map(a).collect()))), a(900)])));
+    for n in [255usize, 256, 65535, 65536] { out.push((format!("text-{n}"), M::Node(Box::new(t("x".repeat(n))), vec![a(1)]))); out.push((format!("bytes-{n}"), M::Leaf(V::Bytes(vec![0x5A; n])))) }
+    out.push(("array-leaf-300".into(), M::Leaf(V::Array((0..300u64).map(V::U).collect()))));
+    out.push(("map-leaf-30".into(), M::Leaf(V::Map((0..30u64).map(|i| (V::U(i * 100), V::Text(format!("v{i}")))).collect()))));
+    out
+}
+
+/// target-subset masks over k digests: all 2^k when k <= 10, otherwise the empty set, all singletons, all pairs and the full set
+/// (the decode-only shapes have up to 15 distinct digests; the small-scope families never exceed 10)
+pub fn masks(k: usize) -> Vec<u32> {
+    if k <= 10 { return (0u32..(1u32 << k)).collect() }
+    let mut v = vec![0u32];
+    for i in 0..k { v.push(1 << i); for j in (i + 1)..k { v.push((1 << i) | (1 << j)) } }
+    v.push(((1u64 << k) - 1) as u32);
+    v
+}
